@@ -50,6 +50,14 @@ SWARM_OPTS = ['--leaf-changes-only', '--impacted-interfaces', '--harmless', '--n
               '--drop-private-types', '--full-impact', '--verbose']
 
 
+# pairs whose comparison ends with an error (no debug info, --fail-no-dbg) next to pairs with ABI changes and no removed binary
+# (whose bits would mask the others): the exit status is accumulated from tasks that complete in a schedule-dependent order
+WL_ERROR_PAIRS = {'files': [{'path': 'lib/libcxx.so', 'v1': 'cxx_v0', 'v2': 'cxx_v2'}, {'path': 'lib/libtiny.so', 'v1': 'tiny_v0', 'v2': 'tiny_v1_nodbg'},
+                            {'path': 'lib/libshapes.so', 'v1': 'shapes_v0', 'v2': 'shapes_v2'}, {'path': 'lib/libmathx.so', 'v1': 'mathx_v1_nodbg', 'v2': 'mathx_v1'},
+                            {'path': 'lib/libfnptr.so', 'v1': 'fnptr_v0', 'v2': 'fnptr_v1'}, {'path': 'lib/libalias.so', 'v1': 'alias_v0', 'v2': 'alias_v0'}],
+                  'format': 'dir', 'abignore': 'none', 'options': ['--no-default-suppression', '--fail-no-dbg']}
+
+
 def gen_workload(rng, big=False, devel=False, same_prefix=False, extended=True, swarm=False, splitdbg=False):
     """A package pair as data: files = [{path, v1, v2}] where v1/v2 name a pool library or None.
     same_prefix: keep the pair where the tool's binary matching is unambiguous (see elf_dirs_prefix): if the removals and
